@@ -38,6 +38,9 @@ def run(tier):
                 ck.violation(sig, w)
             if len(ck.samples) < 3 and ninstr >= 4:
                 ck.sample(dict(bare=variants[i][0].render(), mixed=variants[i][3].render(), outcome=common.brief(base), backend=backend))
+    if tier == "thorough":
+        from vlib import cov
+        cov.report(ck, "C13", srcs)
     return ck.finish()
 
 
